@@ -162,18 +162,20 @@ impl core::ops::Deref for Bytes {
     fn deref(&self) -> (r: &[u8]) ensures r@ == self@ { unimplemented!() }
 }
 
-// std::io::Cursor<&mut BytesMut> used as a non-consuming reader (bytes::Buf for Cursor).
-// Prophecy-style: `fut()` is the value the borrowed buffer has when the borrow ends.
+// std::io::Cursor<T> used as a non-consuming reader (bytes::Buf for Cursor<T>), T = &mut BytesMut, &mut [u8] or BytesMut.
+// `inner()` is the wrapped value itself (for a mutable reference: current and final value), which the cursor never modifies;
+// into_inner() gives exactly that value back, so what the caller does with it afterwards is what the borrowed buffer ends up as.
+pub trait CursorInner: Sized { spec fn cview(&self) -> Seq<u8>; }
+impl CursorInner for BytesMut { open spec fn cview(&self) -> Seq<u8> { self@ } }
+impl<'a> CursorInner for &'a mut BytesMut { open spec fn cview(&self) -> Seq<u8> { (**self)@ } }
+impl<'a> CursorInner for &'a mut [u8] { open spec fn cview(&self) -> Seq<u8> { (**self)@ } }
 #[verifier::external_body]
-pub struct Cursor<'a> { _c: core::marker::PhantomData<&'a mut BytesMut> }
-impl<'a> Cursor<'a> {
+#[verifier::reject_recursive_types(T)]
+pub struct Cursor<T> { _c: T }
+impl<T> Cursor<T> {
     pub uninterp spec fn data(&self) -> Seq<u8>;
     pub uninterp spec fn pos(&self) -> nat;
-    pub uninterp spec fn fut(&self) -> Seq<u8>;
-    #[verifier::external_body]
-    pub fn new(inner: &'a mut BytesMut) -> (r: Cursor<'a>)
-        ensures r.data() == old(inner)@, r.pos() == 0, r.fut() == final(inner)@
-    { unimplemented!() }
+    pub uninterp spec fn inner(&self) -> T;
     #[verifier::external_body]
     pub fn remaining(&self) -> (r: usize)
         ensures r == (if self.pos() <= self.data().len() { self.data().len() - self.pos() } else { 0 })
@@ -181,27 +183,39 @@ impl<'a> Cursor<'a> {
     #[verifier::external_body]
     pub fn position(&self) -> (r: u64) ensures r == self.pos() { unimplemented!() }
     #[verifier::external_body]
+    pub fn get_u64(&mut self) -> (r: u64)
+        requires old(self).pos() + 8 <= old(self).data().len()
+        ensures r as nat == be_val(old(self).data().subrange(old(self).pos() as int, (old(self).pos() + 8) as int)),
+            final(self).pos() == old(self).pos() + 8, final(self).data() == old(self).data(), final(self).inner() == old(self).inner()
+    { unimplemented!() }
+    #[verifier::external_body]
     pub fn copy_to_slice(&mut self, dst: &mut [u8])
         requires old(self).pos() + old(dst)@.len() <= old(self).data().len()
         ensures final(dst)@ == old(self).data().subrange(old(self).pos() as int, (old(self).pos() + old(dst)@.len()) as int),
-            final(self).pos() == old(self).pos() + old(dst)@.len(), final(self).data() == old(self).data(), final(self).fut() == old(self).fut()
+            final(self).pos() == old(self).pos() + old(dst)@.len(), final(self).data() == old(self).data(), final(self).inner() == old(self).inner()
     { unimplemented!() }
     #[verifier::external_body]
     pub fn copy_to_bytes(&mut self, n: usize) -> (r: Bytes)
         requires old(self).pos() + n <= old(self).data().len()
         ensures r@ == old(self).data().subrange(old(self).pos() as int, (old(self).pos() + n) as int),
-            final(self).pos() == old(self).pos() + n, final(self).data() == old(self).data(), final(self).fut() == old(self).fut()
-    { unimplemented!() }
-    /// gives the borrow back: the buffer still holds data() and whatever the caller does next is its final value
-    #[verifier::external_body]
-    pub fn into_inner(self) -> (r: &'a mut BytesMut)
-        ensures r@ == self.data(), final(r)@ == self.fut()
+            final(self).pos() == old(self).pos() + n, final(self).data() == old(self).data(), final(self).inner() == old(self).inner()
     { unimplemented!() }
 }
-/// TRUSTED hint: a cursor that goes out of scope without into_inner() leaves the borrowed buffer as it was.
+impl<T: CursorInner> Cursor<T> {
+    #[verifier::external_body]
+    pub fn new(inner: T) -> (r: Self)
+        ensures r.data() == inner.cview(), r.pos() == 0, r.inner() == inner
+    { unimplemented!() }
+    /// gives the wrapped value back (for a mutable reference: the borrow itself)
+    #[verifier::external_body]
+    pub fn into_inner(self) -> (r: T)
+        ensures r == self.inner()
+    { unimplemented!() }
+}
+/// TRUSTED hint: a cursor over a borrowed buffer that goes out of scope without into_inner() leaves the buffer as it was.
 /// May only be invoked where the cursor is dropped (checked by reading; see DESIGN.md 4).
 #[verifier::external_body]
-pub proof fn axiom_cursor_dropped(c: &Cursor) ensures c.fut() == c.data() {}
+pub proof fn axiom_cursor_dropped<'a>(c: &Cursor<&'a mut BytesMut>) ensures final(c.inner())@ == (*c.inner())@ {}
 
 /// what `BytesMut::from` accepts in the extracted code (From<Bytes>, From<&[u8]>)
 pub trait BmSource { spec fn bm_src(&self) -> Seq<u8>; }
